@@ -510,6 +510,20 @@ def run_case(case):
     fired = 0
     saved = config.failonerror
     try:
+        # a decoy view of the same form, iterated first with another
+        # errorvalue under policy False: a view's error handling must not
+        # leak into the views built after it
+        if not natural and points:
+            dfl = Faults(set(points[:1]), case.get('exc_kind', 'plain'),
+                         case.get('lazy', False))
+            dcase = dict(case, errorvalue='ERR' if case['errorvalue'] != 'ERR'
+                         else 'obj')
+            config.failonerror = True
+            try:
+                _run_view(_build(e, dcase, dfl, False, 'arg', _table(case)),
+                          1)
+            except Exception:
+                pass
         for k in range(len(points) + 1):
             for sub in itertools.combinations(points, k):
                 fail = set(sub)
